@@ -449,42 +449,66 @@ def rule_optional(facts):
         return r
     gs, tm = pat.guards(b)
     c = cfg(b)
-    mbs = [blk.idx for blk in b.calls() if (flow.callee(blk.term) or "").endswith("get_multibyte")]
     r.sites = 3
-    found = {}
-    for (bb, t, z, nz) in gs:
-        s = pat.cmp_sides(t)
-        if not s or s[0] not in ("Ne", "Eq") or s[2] != ("const", 0):
-            continue
-        x = pat.strip(s[1])
-        if x and x[0] == "BitAnd" and pat.has_call(x, "read_u8") and x[2][0] == "const" and x[2][1] in (0x40, 0x80):
-            set_edge = nz if s[0] == "Ne" else z
-            clr_edge = z if s[0] == "Ne" else nz
-            found.setdefault(x[2][1], []).append((bb, set_edge, clr_edge))
-    # guards may be on a bool temp (has_packed_size) -> two-step: find switch on a local whose def is Ne(BitAnd(flags, c), 0)
-    for (bb, t, z, nz) in gs:
-        s = pat.cmp_sides(t)
-        if s:
-            continue
-        x = pat.strip(t)
-        if x and x[0] in ("Ne", "Eq"):
-            continue
-    for bit, nm in ((0x40, "compressed size"), (0x80, "uncompressed size")):
-        gl = found.get(bit)
-        if not gl:
-            r.bad("optional|%s-guard" % nm, "cannot find the test of flag bit 0x%02x" % bit, pat.where(b), "unverifiable")
-            continue
-        okk = False
-        for bb, se, ce in gl:
-            dom = [m for m in mbs if c.dominates(se, m) or se == m]
-            # exactly one multibyte read under the set edge that is not reachable from the clear edge without passing the join
-            only = [m for m in dom if m not in c.reachable_from(ce, avoid=[se]) or True]
-            if len(dom) >= 1 and all(not (c.dominates(ce, m)) for m in dom):
-                okk = True
-        if okk:
-            r.ok("control-dependence", {nm: "read iff flags & 0x%02x" % bit})
-        else:
-            r.bad("optional|%s" % nm, "the %s field is not read exactly when flag bit 0x%02x is set" % (nm, bit), pat.where(b))
+    # the two Option fields of the returned BlockHeader, as functions of the flags byte (gated evaluation)
+    from engine.flow import PosTerms
+    pt = PosTerms(b)
+    adt = facts.adt("decode::xz::BlockHeader")
+    agg = None
+    for blk in b.blocks:
+        for i, s_ in enumerate(blk.stmts):
+            if s_.k == "assign" and s_.rv.k == "aggregate" and s_.rv.agg == "adt" and s_.rv.adt_name.endswith("xz::BlockHeader"):
+                agg = (blk.idx, i, s_)
+    if adt is None or agg is None:
+        r.bad("optional|header-aggregate", "cannot find the BlockHeader built by read_block_header", pat.where(b), "unverifiable")
+    else:
+        names = [f_["name"] for f_ in adt["variants"][0]["fields"]]
+        bbA, iA, sA = agg
+        first_read = {}
+        for fld, bit, nm in (("packed_size", 0x40, "compressed size"), ("unpacked_size", 0x80, "uncompressed size")):
+            if fld not in names:
+                r.bad("optional|%s-field" % nm, "BlockHeader has no field %s" % fld, pat.where(b), "unverifiable")
+                continue
+            op = sA.rv.ops[names.index(fld)]
+            if op.place is None or op.place.proj:
+                r.bad("optional|%s-term" % nm, "cannot follow the %s field" % nm, pat.where(b, bbA), "unverifiable")
+                continue
+
+            def on_def(bb, i, st, fld=fld):
+                rv = st.rv
+                if rv.k == "aggregate" and rv.agg == "adt" and rv.adt_name.endswith("Option"):
+                    if rv.variant == 1:
+                        src = tm.of_operand(rv.ops[0])
+                        cs = [q for q in _subterms(src) if q[0] == "call" and q[1].endswith("get_multibyte")]
+                        if cs:
+                            first_read.setdefault(fld, cs[0][3])
+                    return rv.variant        # 0 = None, 1 = Some
+                return None
+            bad = None
+            try:
+                for f in range(256):
+                    if f & 0x3C:
+                        continue            # reserved bits set: rejected before
+                    leaf = lambda q, f=f: f if (q[0] in ("ok", "try") and pat.has_call(q, "read_u8")) else (_ for _ in ()).throw(pat.NotEvaluable(q))
+                    v = pat.eval_gated(b, pt, op.place.local, bbA, leaf, iA, on_def)
+                    if bool(v) != bool(f & bit):
+                        bad = "block flags 0x%02x: the %s field is %s, the format says %s" % (f, nm, "read" if v else "not read",
+                                                                                           "present" if f & bit else "absent")
+                        break
+            except pat.NotEvaluable as ex:
+                r.bad("optional|%s-term" % nm, "cannot evaluate the presence of the %s field as a function of the flags byte" % nm, pat.where(b, bbA), "unverifiable")
+                continue
+            if bad:
+                r.bad("optional|%s" % nm, bad, pat.where(b, bbA))
+            else:
+                r.ok("evaluation", {nm: "present iff flags & 0x%02x (all flag bytes with reserved bits clear)" % bit})
+        # field order in the header: compressed size first
+        if "packed_size" in first_read and "unpacked_size" in first_read:
+            a_, b2 = first_read["packed_size"], first_read["unpacked_size"]
+            if b2 in c.reachable_from(a_) and a_ not in c.reachable_from(b2):
+                r.ok("order", {"fields": "compressed size is read before uncompressed size"})
+            else:
+                r.bad("optional|order", "the optional size fields are read in the wrong order", pat.where(b, a_))
     # the order: packed before unpacked
     # filter count
     rng = [tm.of_operand(s.rv.ops[1]) for blk in b.blocks for s in blk.stmts if s.k == "assign" and s.rv.k == "aggregate"
